@@ -84,9 +84,36 @@ func restoreListeners(r *runState) {
 	}
 }
 
-// restart (sub-check a): returns false when the history is not in a restartable state.
-func (r *runState) restart() bool {
-	if !reopenable(r.w) {
+// storedAncestor: is anc reachable from of by following TS_Links rows upwards (or anc == of)?
+func storedAncestor(w *pvx.World, anc, of int64) bool {
+	rows, err := pvx.LinkRows(w.SQL)
+	if err != nil {
+		return false
+	}
+	cur := of
+	for n := 0; n <= len(rows)+1; n++ {
+		if cur == anc {
+			return true
+		}
+		next, found := int64(0), false
+		for _, r := range rows {
+			if r.Child == cur {
+				next, found = r.Parent, true
+				break
+			}
+		}
+		if !found {
+			return false
+		}
+		cur = next
+	}
+	return true // the stored rows themselves are cyclic
+}
+
+// restart (sub-check a): returns false when the history is not in a restartable state
+// (forced: a "restartx" operation, performed whatever the stored links name).
+func (r *runState) restart(forced bool) bool {
+	if !forced && !reopenable(r.w) {
 		return false
 	}
 	r.finish() // the old process is gone: its listener sockets with it
